@@ -373,6 +373,8 @@ def r17_2(ctx, run, ba, rule='R17.2', floor=5):
         d = f'{callee.split("::")[-1]}[{render_pos(pos)}]'
         if ok:
             run.proved(rule, b.path, d, why, loc)
+        elif ok is None:
+            run.undecided(rule, b.path, d, why, loc)
         else:
             run.violation(rule, b.path, d, f'the position written/resized is not derived from the buffer length observed inside the call ({why}): with bytes already in the buffer '
                           'it lands on the caller\'s data instead of the newly appended area', loc)
@@ -390,6 +392,7 @@ def position_ok(ctx, ba, b, pos, roots, p, e):
     l = lin(pos)
     tag = 0
     notes = []
+    unknown_items = []
     for a, c in l[0].items():
         a0 = strip_casts(a)
         k = atom_len_tag(a0, roots, b, 0)
@@ -421,15 +424,44 @@ def position_ok(ctx, ba, b, pos, roots, p, e):
                 continue
             # plain loop index (enumerate) etc.: contributes no buffer length
             if is_small_index(b, L):
+                if iterator_item_of_range(b, L):
+                    unknown_items.append(f'{b.name_of(L) or L}, an item of an iterator built from a range / zip')
                 continue
             return False, f'`{b.name_of(L) or L}` is not initialised from the buffer length (absolute position)'
+        # an item handed out by an iterator (`(start..).step_by(4)` zipped with the data, a position yielded by an adaptor): where it starts
+        # is decided where the iterator is built, which this rule does not follow
+        if any(s_[0] == 'call' and canon(s_[1]).split('::')[-1] in ('next', 'nth', 'next_back') and 'Iterator' in s_[1] for s_ in subterms(a0)) and \
+                any((s_[0] == 'call' and canon(s_[1]).split('::')[-1] in ('step_by', 'zip', 'scan', 'successors', 'map')) or
+                    (agg_variant(s_) and s_[1][1].split('::')[-1] in ('RangeFrom', 'Range', 'RangeInclusive')) for s_ in subterms(a0)):
+            unknown_items.append(show(a0)[:60])
         # other atoms (field reads, call results): no buffer length
     if tag == 1:
         return True, ' + '.join(sorted(set(notes))) + ' + offset'
+    if unknown_items:
+        return None, f'the position is an item yielded by an iterator ({unknown_items[0]}); whether that iterator starts at the buffer length is not decided'
     return False, f'net buffer-length coefficient is {tag}, expected 1'
 
 
 def body_int_nonbuffer(b, L):
+    return False
+
+
+def iterator_item_of_range(b, L):
+    """The local is bound from the items of an iterator whose construction involves a range or zip / step_by (`(start..).step_by(4)` zipped
+    with the data): unlike an enumerate() index such an item need not count from zero."""
+    ex = Expr(b, expand_named=True)
+    for d in defs(b).get(L, []):
+        if d[0] != 'stmt' or d[3] is None:
+            continue
+        try:
+            t = ex.rvalue(d[3])
+        except Exception:
+            continue
+        for s_ in walk(t):
+            if s_[0] == 'call' and canon(s_[1]).split('::')[-1] in ('step_by', 'zip', 'scan', 'successors'):
+                return True
+            if s_[0] == 'agg' and isinstance(s_[1], tuple) and s_[1][0] == 'adt' and str(s_[1][1]).split('::')[-1] in ('RangeFrom',):
+                return True
     return False
 
 
